@@ -150,6 +150,17 @@ def main():
                 continue
             fn = None
             in_test = False
+            # text of every function (from its `fn` line to the next one): the context in which a
+            # partial operation was judged safe; an edit there re-opens the obligation
+            bodies, cur = {}, None
+            for line in open(p, encoding="utf-8").read().split("\n"):
+                m = re.search(r'\bfn (\w+)', line.strip())
+                if m and not line.strip().startswith("//"):
+                    cur = m.group(1)
+                if cur:
+                    bodies.setdefault(cur, []).append(re.sub(r'\s+', ' ', line.strip()))
+            import hashlib
+            ctx_of = dict((k, hashlib.sha1("\n".join(x for x in v if x and not x.startswith("//")).encode()).hexdigest()[:12]) for k, v in bodies.items())
             for i, line in enumerate(open(p, encoding="utf-8").read().split("\n"), 1):
                 s = line.strip()
                 if s.startswith("//") or s.startswith("*") or s.startswith("/*"):
@@ -169,7 +180,9 @@ def main():
                         continue
                     if s.startswith("#["):
                         continue
-                    sites.append({"file": rel, "fn": fn, "text": re.sub(r'\s+', ' ', s), "token": tok})
+                    if tok.startswith("[") and re.match(r'\[[A-Z]', tok):
+                        continue        # a slice type such as &[ExprOrSpread], not an index
+                    sites.append({"file": rel, "fn": fn, "text": re.sub(r'\s+', ' ', s), "token": tok, "guard_ctx": ctx_of.get(fn)})
     os.makedirs(os.path.join(HERE, ".cache"), exist_ok=True)
     json.dump(sites, open(os.path.join(HERE, ".cache", "panic_sites.json"), "w"), indent=1)
 
